@@ -25,12 +25,13 @@ Base64Binary = EDataType('Base64Binary', instanceClassName='byte[]')
 
 Boolean = EDataType('Boolean', instanceClassName='boolean',
                     to_string=lambda x: str(x).lower(),
-                    from_string=lambda x: x in ['True', 'true'])
+                    from_string=lambda x: x in ['True', 'true'] or x is True)
 
 BooleanObject = EDataType('BooleanObject',
                           instanceClassName='java.lang.Boolean',
                           to_string=lambda x: str(x).lower(),
-                          from_string=lambda x: x in ['True', 'true'])
+                          from_string=lambda x: x in ['True', 'true']
+                          or x is True)
 
 Byte = EDataType('Byte', instanceClassName='byte', from_string=int)
 
